@@ -21,6 +21,8 @@ CTYPES = {'css': 'text/css', 'gif': 'image/gif', 'html': 'text/html',
           'jpg': 'image/jpeg', 'js': 'application/javascript',
           'json': 'application/json', 'png': 'image/png', 'txt': 'text/plain'}
 ENDPOINTS = ['engine.io', '/engine.io/', 'static/sub']
+# the other spellings of the same endpoints (leading / trailing slash only): tried on every path of <= 2 segments
+EXTRA_ENDPOINTS = ['/engine.io', 'engine.io/', '/static/sub', 'static/sub/']
 
 
 # ------------------------------------------------------------ scratch tree
@@ -409,7 +411,7 @@ def _work(chunk):
     outcomes = set()
     for path in chunk:
         for mname, mapping in maps.items():
-            for ep in ENDPOINTS:
+            for ep in ENDPOINTS + (EXTRA_ENDPOINTS if path.count('/') <= 2 else []):
                 for wrapped in (False, True):
                     for app, fn in (('wsgi', run_wsgi), ('asgi', run_asgi)):
                         if path == '' and app == 'wsgi' and False:
@@ -573,7 +575,7 @@ def run(ctx):
         'evaluations': tot['runs'] + lcases + npairs,
         'distinct_nontrivial': len(paths) * len(mappings(base)) * len(ENDPOINTS) * 2,
         'rule': 'every path of <= %d segments over %r with and without trailing slash (%d paths) x 8 static '
-                'mappings x endpoints %r x wrapped app present/absent x {WSGIApp, ASGIApp} on a scratch tree with '
+                'mappings x endpoints %r (paths of <= 2 segments: all four slash spellings of each) x wrapped app present/absent x {WSGIApp, ASGIApp} on a scratch tree with '
                 'unique file contents and a secret.txt outside every mapped root; every request sequence p1, then all of %d '
                 'probe paths, on ONE application object compared with a fresh application (history independence); every '
                 'lifespan event sequence of length <= 3 over {startup, shutdown, unknown} x 5x5 callback kinds x wrapped app. '
